@@ -147,12 +147,21 @@ void dfs(AdaptiveHuffmanTree& t, RefHuff& r, unsigned depth, unsigned maxd, std:
 	}
 }
 
-void capacity_run(unsigned n, unsigned pattern, Stats& st) {
+// refusals > 0: that many refused calls (out-of-range symbols; they change nothing, so they must not use up capacity either) are spread over the
+// run - the tree must still take exactly 65535 - n updates
+void capacity_run(unsigned n, unsigned pattern, Stats& st, unsigned refusals = 0) {
 	AdaptiveHuffmanTree tree{uint16_t(n)}; RefHuff ref{int(n)};
 	uint64_t cap = 65535 - n;
-	std::string ctx = "[capacity run n=" + std::to_string(n) + " pattern=" + std::to_string(pattern) + "]";
+	std::string ctx = "[capacity run n=" + std::to_string(n) + " pattern=" + std::to_string(pattern) + (refusals ? " with " + std::to_string(refusals) + " refused calls on the way" : std::string()) + "]";
 	uint64_t s = 88172645463325252ULL + n;
+	uint64_t refEvery = refusals ? std::max<uint64_t>(1, cap / refusals) : 0, refused = 0;
 	for (uint64_t i = 0; i < cap; ++i) {
+		if (refEvery && refused < refusals && (i % refEvery == refEvery / 2 || i + (refusals - refused) >= cap)) {
+			unsigned bad = (refused & 1) ? 65535u : n + unsigned(refused % 3);
+			Out ob = guarded([&] { tree.UpdateCodeCount(uint16_t(bad)); });
+			V_CHECK(ob == Out::Err, "update with out-of-range symbol " << bad << " accepted " << ctx);
+			++refused;
+		}
 		int sym;
 		if (pattern == 0) sym = int(i % n); else if (pattern == 1) sym = 0; else { s ^= s << 13; s ^= s >> 7; s ^= s << 17; sym = int((s >> 16) % n); }
 		Out o = guarded([&] { tree.UpdateCodeCount(uint16_t(sym)); });
@@ -170,8 +179,8 @@ void capacity_run(unsigned n, unsigned pattern, Stats& st) {
 		V_CHECK(before == after, "refused update at capacity changed the tree " << ctx);
 	}
 	expect_refusal(tree, ref, ctx, st);
-	st.cls("capacity_run");
-	st.nt(hmix(n, pattern) ^ 0xCA);
+	st.cls(refusals ? "capacity_run_with_refused_calls_on_the_way" : "capacity_run");
+	st.nt(hmix(n, pattern + 16 * refusals) ^ 0xCA);
 }
 // one symbol far ahead of everything else (its lead passing 2^15 and approaching 2^16), then cold symbols: differences of counts that do not
 // fit a signed or a narrower type, a hot leaf directly under the root while other leaves move
@@ -237,6 +246,7 @@ void run_sweep(Stats& st) {
 	// to and across capacity
 	for (unsigned n : {2u, 3u, 314u}) for (unsigned pattern = 0; pattern < 3; ++pattern) { if (!sw("capacity", n, pattern)) continue; capacity_run(n, pattern, st); }
 	if (g_thorough) for (unsigned n : {4u, 5u, 17u, 100u, 313u}) { if (!sw("capacity", n, 2)) continue; capacity_run(n, 2, st); }
+	{ const unsigned plan[][3] = {{2, 1, 1}, {3, 2, 7}, {314, 2, 40}, {314, 1, 3}}; for (auto& q : plan) { if (!sw("capacity_after_refusals", q[0], q[1], q[2])) continue; capacity_run(q[0], q[1], st, q[2]); } }
 	for (unsigned n : {24u, 40u, 100u, 314u}) for (unsigned order = 0; order < 2; ++order) { if (!sw("deep", n, order)) continue; deep_run(n, order, st); }
 	for (unsigned n : {2u, 3u, 5u, 314u}) for (unsigned lead : {127u, 128u, 255u, 256u, 32766u, 32767u, 32768u, 32769u, 33100u, 40000u, 65000u}) { if (lead + n + 40 > 65535) continue; if (!sw("hot_cold", n, lead)) continue; hot_cold_run(n, (n * 3 / 4) % n, lead, st); }
 	st.exhaustive = true;
